@@ -31,6 +31,7 @@ type runConfig struct {
 	MaxDecisions   int
 	MaxPaths       int64
 	MaxViolations  int
+	MaxViolPaths   int64
 	OkSamples      int
 	MaxTimerFires  int
 	Workers        int
@@ -156,6 +157,7 @@ func cmdRun(args []string) int {
 	steps := fs.Int64("steps", 20_000_000, "per-path instruction budget")
 	maxPaths := fs.Int64("max-paths", 200000, "path budget per harness")
 	maxViol := fs.Int("max-violations", 5, "stop after this many violations")
+	maxViolPaths := fs.Int64("max-violation-paths", 2000000, "stop after this many violating paths (a broken tree is reported quickly instead of being explored to the end)")
 	maxDec := fs.Int("max-decisions", 4000, "per-path decision budget")
 	okSamples := fs.Int("ok-samples", 0, "record up to N replayable ok paths (engine/native agreement test)")
 	verbose := fs.Bool("v", false, "verbose")
@@ -169,7 +171,7 @@ func cmdRun(args []string) int {
 	fs.Parse(args)
 
 	cfg := &runConfig{Solver: *solver, QueryTimeoutMs: *qto, StepBudget: *steps, MaxDecisions: *maxDec,
-		MaxPaths: *maxPaths, MaxViolations: *maxViol, OkSamples: *okSamples, MaxTimerFires: 64, Workers: *workers, Verbose: *verbose,
+		MaxPaths: *maxPaths, MaxViolations: *maxViol, MaxViolPaths: *maxViolPaths, OkSamples: *okSamples, MaxTimerFires: 64, Workers: *workers, Verbose: *verbose,
 		Params: map[string]int{}, Env: map[string]string{}, TimeBudget: *timeBudget}
 	for _, kv := range strings.Split(*params, ",") {
 		if kv == "" {
